@@ -45,7 +45,27 @@ func (s *scriptedResolver) LookupCNAME(ctx context.Context, host string) (string
 	return a, nil
 }
 
+type cachedProof struct {
+	p  *protocol.ProofOfWork
+	at time.Time
+}
+
+// proof returns a real proof of work for the subject; proofs stay valid for a
+// while and the server keeps no replay list, so one is reused for up to 5
+// simulated seconds (solving costs ~80 ms of real time each).
 func (w *World) proof(c *Client, subject string, expiredBy time.Duration) *protocol.ProofOfWork {
+	if w.proofs == nil {
+		w.proofs = map[string]cachedProof{}
+	}
+	if cp, ok := w.proofs[subject]; ok && time.Since(cp.at) < 5*time.Second {
+		return cp.p
+	}
+	p := w.freshProof(subject)
+	w.proofs[subject] = cachedProof{p: p, at: time.Now()}
+	return p
+}
+
+func (w *World) freshProof(subject string) *protocol.ProofOfWork {
 	_, priv, _ := ed25519.GenerateKey(detReader{w.r})
 	p, err := pow.GenerateSolution(priv, pow.Parameters{Difficulty: acmespec.HashcashDifficulty, Expires: acmespec.HashcashExpires, GetSubject: func(ed25519.PublicKey) string { return subject }})
 	if err != nil {
@@ -157,7 +177,7 @@ func (w *World) checkC29(res *scriptedResolver) {
 	if _, err := w.call(c, 0, "AcmeValidate", &protocol.ValidateRequest{Hostname: good, Proof: w.proof(c, "some.other.subject.org", 0)}); err == nil {
 		w.res.Violate("C29", "wrong-proof-accepted", "AcmeValidate accepted a proof of work made for another hostname")
 	}
-	stale := w.proof(c, good, 0)
+	stale := w.freshProof(good)
 	simrt.Sleep(45*time.Second, "h:let-proof-expire")
 	if _, err := w.call(c, 0, "AcmeValidate", &protocol.ValidateRequest{Hostname: good, Proof: stale}); err == nil {
 		w.res.Violate("C29", "expired-proof-accepted", "AcmeValidate accepted a proof of work that expired 35 s ago")
